@@ -358,6 +358,13 @@ def main():
     N = 4 if tier == 'quick' else 5
     seqs = [s for n in range(1, N + 1) for s in itertools.product(c13.ALPHA, repeat=n)]
     random.Random(seed).shuffle(seqs)
+    # beyond the exhaustive bound: seed-chosen longer sequences (well-formed, one planted defect, random), 5..9 tokens
+    rng = random.Random(seed ^ 0xc01)
+    longer = c13.planted_defects(seed, N + 1, N + 4, 150 if tier == 'quick' else 3000)
+    for _ in range(150 if tier == 'quick' else 3000):
+        longer.append(tuple(c13.gen_wellformed(rng, rng.randint(N + 1, N + 5))))
+        longer.append(tuple(rng.choice(c13.ALPHA) for _ in range(rng.randint(N + 1, N + 4))))
+    longer = list(dict.fromkeys(longer))
     eshapes = ['I', 'F', 'B', 'S1', 'T1', 'E']
     arglists = [[]] + [[a] for a in eshapes] + [[a, b] for a in eshapes for b in eshapes]
     a3 = [[a, b, c] for a in eshapes for b in eshapes for c in eshapes]
@@ -366,7 +373,7 @@ def main():
     for ofc in (True, False):
         frontend.load(overflow_checks=ofc)
         # the tree builder contains no integer arithmetic of its own: sweep it under the default (checked) build, and a seed-chosen tenth unchecked
-        sel = seqs if ofc else seqs[:len(seqs) // 10]
+        sel = (seqs + longer) if ofc else seqs[:len(seqs) // 10]
         for i in range(0, len(sel), 24):
             units.append(('tree', sel[i:i + 24], ofc, timeout_ms, seed))
         for op in OPERATORS:
@@ -408,7 +415,7 @@ def main():
         results.append(kr)
     checklib.finish(PID, results, t0=t0, replay_fn=replay_ce, extra=dict(kani=kres),
                     rule='units: whole-pipeline eval(source) on %d templates with free characters; %d builtins x %d argument shapes; %d operator variants x argument vectors of length 0..3 x 3 context kinds; all %d token-kind sequences <= %d '
-                         'tokens through the tree builder; tokenizer on %d templates with up to %d completely free characters; Display of every Value shape / error variant / '
+                         'tokens (plus seed-chosen longer ones up to 9 tokens) through the tree builder; tokenizer on %d templates with up to %d completely free characters; Display of every Value shape / error variant / '
                          'operator / token; each with overflow checks on and off; an obligation is one path end: either not a panic point, or a panic point proved infeasible'
                          % (len(e2e_templates(tier)), len(c10.BUILTINS), len(shapes), len(OPERATORS), len(seqs), N, len(lex_templates(tier)), 3 if tier == 'quick' else 4),
                     explanation='bounded symbolic verification of panic-freedom: every MIR assert / unreachable / explicit panic and every panicking branch of a std model '
